@@ -78,6 +78,13 @@ def run(ctx: core.Ctx) -> int:
     ctx.rule("TRUST-SIG", "sympy is called with its trusted signatures only")
     g = genlayout.check_all(ctx)
     tmprules.check_cpp_block(ctx, g.p.modules["cpp"])
+    from . import c13 as _c13
+    for _rid, _t in (("NV-NAMES", "named arrays accept the str() names of their arglist"), ("NV-STORE", "the value given for a name is stored unmodified at its index"),
+                     ("NV-DEFAULT", "zeros / unit variance defaults"), ("NV-GUARD", "unknown names refused"), ("NV-DATA", "_data stored as is"),
+                     ("NV-SHAPE", "shape from the arglist"), ("NV-FROMDICT", "from_dict binds by str(key)")):
+        ctx.rule(_rid, _t)
+    _c13.check_named(ctx, g.p.modules["common"], "named_covariance", "cov")
+    _c13.check_base(ctx, g.p.modules["common"])
     w = witness.Witness(ctx)
     decl_def(ctx, w)
     vals = [witness.Valuation(ctl, cal) for ctl in (False, True) for cal in (False, True)]
